@@ -86,8 +86,9 @@ theorem ctl_sees_fault (s s' : St) (t : Nat) (hs : cstep s (.cReadExc t true) = 
   · contradiction
 
 /-- … and `shutdown()` is enabled there. -/
-theorem ctl_can_shutdown (s : St) (h : s.ctl.pc = .idle) : (cstep s .cShutdown).isSome = true := by
-  simp [cstep, h]
+theorem ctl_can_shutdown (s : St) (h : s.ctl.pc = .idle) (hm : s.ctl.mustStop = true) :
+    (cstep s .cShutdown).isSome = true := by
+  simp [cstep, h, hm]
 
 /-- The same holds after an exception or interrupt inside the control loop itself (failing save
 callback, failing save condition, KeyboardInterrupt): whatever it was doing, the control thread is
